@@ -23,7 +23,7 @@ func init() {
 			if tier == "quick" {
 				return 3200
 			}
-			return 16000
+			return 48000
 		},
 		Run: runC05,
 		Required: []string{"add_node.true", "add_link.true", "connect_sensors.true", "toggle_enable.disabled", "re_enable.enabled",
